@@ -129,6 +129,42 @@ func checkComplete(cs c02Case) (clause, detail string, nE int, skipped bool) {
 	return "", "", len(E), false
 }
 
+// reusedObject: completeness is about the pattern's value, not about the object that holds it.  An owner that keeps
+// one map object and fills it with the next pattern (same number of properties, other keys) gets every assignment
+// a freshly built equal pattern gets.
+var c02Scratch = map[int]map[string]interface{}{}
+
+func reusedObject(cs c02Case) (string, string) {
+	pm, ok := cs.P.(map[string]interface{})
+	if !ok || len(pm) < 2 {
+		return "", ""
+	}
+	scratch := c02Scratch[len(pm)]
+	if scratch == nil {
+		scratch = map[string]interface{}{}
+		c02Scratch[len(pm)] = scratch
+	}
+	for k := range scratch {
+		delete(scratch, k)
+	}
+	for k, v := range pm {
+		scratch[k+"_"] = jgen.Clone(v) // the object's earlier life: as many properties, other keys
+	}
+	match.Match(scratch, jgen.Clone(cs.M), match.Bindings(copyB(cs.B)))
+	for k := range scratch {
+		delete(scratch, k)
+	}
+	for k, v := range pm {
+		scratch[k] = jgen.Clone(v)
+	}
+	r1, e1 := match.Match(scratch, jgen.Clone(cs.M), match.Bindings(copyB(cs.B)))
+	r2, e2 := match.Match(jgen.Clone(cs.P), jgen.Clone(cs.M), match.Bindings(copyB(cs.B)))
+	if (e1 == nil) != (e2 == nil) || (e1 == nil && canonBss(r1) != canonBss(r2)) {
+		return "results-lost-for-a-reused-pattern-object", fmt.Sprintf("a map object that held another pattern of the same size before gives Match(%s, %s, %s) = %s (err %v); a freshly built equal pattern gives %s (err %v)", jgen.J(cs.P), jgen.J(cs.M), jgen.J(cs.B), canonBss(r1), e1, canonBss(r2), e2)
+	}
+	return "", ""
+}
+
 func canonBss(bss []match.Bindings) string {
 	ms := make([]M, len(bss))
 	for i, b := range bss {
@@ -173,6 +209,10 @@ func completeOne(c *vh.Ctx, cs c02Case, planted bool) {
 		}
 	}
 	if clause == "" {
+		clause, detail = reusedObject(cs)
+		if clause != "" {
+			c.Violation("C02/"+clause+"/"+shape(cs.P), detail, cs)
+		}
 		return
 	}
 	c2, _, _, _ := checkComplete(cs)
